@@ -4,7 +4,7 @@
   correctness of the lower-bound search, characterisation of `mapDuplicatePoints`.
 -/
 import FcModel.Spec.C06
-namespace Fc
+namespace Fc.C06
 
 /-! ### filterExternal / mapExternal -/
 
@@ -482,4 +482,4 @@ theorem lexsortIdx_isLexSort (pts : List (List Int)) (d : Nat) (hd : ∀ p ∈ p
         exact getD_length_of_all hd x hxl
   exact ⟨(key pts.length (Nat.le_refl _)).1, (key pts.length (Nat.le_refl _)).2⟩
 
-end Fc
+end Fc.C06
